@@ -158,7 +158,7 @@ Fixpoint str_ltb (a b : string) : bool :=
 Definition fclock (n : Z) : Z := 1000 + 10 * n.
 
 (* ---- flat write / read options as the harness passes them ---- *)
-Record fwo := mkFWO {
+Record fwo := mkFWO' {
   o_time : option Z;
   o_update : option (list fld);
   o_reset : option (list fld);
@@ -173,13 +173,20 @@ Record fwo := mkFWO {
   o_create : bool;
   o_created_cb : bool;
   o_gen_id : bool;
-  o_id_cb : bool
+  o_id_cb : bool;
+  o_more_update : option (list fld)     (* WithMoreUpdateMask: only has an effect when an update mask is given *)
 }.
+(* the constructor without WithMoreUpdateMask (used by the checks that do not exercise that option) *)
+Definition mkFWO a1 a2 a3 a4 a5 a6 a7 a8 a9 a10 a11 a12 a13 a14 a15 : fwo :=
+  mkFWO' a1 a2 a3 a4 a5 a6 a7 a8 a9 a10 a11 a12 a13 a14 a15 None.
 
 (* opt.go fieldUpdater(writableFields): union of the resource's writable fields and the call's extra
    ones (only when the resource restricts writes), all-writable override *)
 Definition mk_writer (resource_writable : option (list fld)) (o : fwo) : fwriter :=
-  mkFW (o_update o) (o_reset o)
+  mkFW (match o_update o, o_more_update o with
+        | Some u, Some m => Some (dedup (u ++ m))     (* fieldmaskpb.Union *)
+        | u, _ => u
+        end) (o_reset o)
        (if o_all_writable o then None
         else match resource_writable with
              | None => None
